@@ -20,6 +20,7 @@
 #include <spec_host.h>
 #include <spec_ip.h>
 #include <spec_tld.h>
+#include <idn2.h>
 
 typedef unsigned char u8;
 
@@ -166,6 +167,32 @@ static struct exp spec_email(int mode, const u8 *s, size_t n, int tld_check)
     e.accept = 1; e.cls = c; return e;
 }
 
+/* mode 6531: the local part by the 6531 automaton; the host name is first converted by the IDN library itself (assumed
+   contract A7: the oracle takes the library's answer as given) and the converted name is judged like an ASCII host name */
+static struct exp spec_email_6531(const u8 *s, size_t n, int tld_check)
+{
+    struct exp e = { 0, 0, 0, 0, 0, 0 };
+    if (n == 0) return e;
+    long at = -1; for (size_t i = 0; i < n; i++) if (s[i] == '@') at = (long)i;
+    if (at < 0 || (size_t)at == n - 1 || at > 64 || at == 0) return e;
+    if (!spec_local_6531(s, (size_t)at)) return e;
+    const u8 *d = s + at + 1; size_t dn = n - (size_t)at - 1;
+    if (d[0] == '[') {               /* literals: as in the ASCII modes */
+        u8 tmp[600]; if (n >= sizeof tmp) { e.open = 1; return e; }
+        memcpy(tmp, "a", 1); memcpy(tmp + 1, s + at, n - (size_t)at);      /* "a@[...]" judged by the ASCII specification */
+        return spec_email(5321, tmp, n - (size_t)at + 1, tld_check);
+    }
+    char *in = malloc(dn + 1); memcpy(in, d, dn); in[dn] = 0;
+    char *out = NULL; int rc = idn2_to_ascii_8z(in, &out, IDN2_NONTRANSITIONAL);
+    free(in);
+    if (rc != IDN2_OK) { if (out) free(out); return e; }
+    size_t on = strlen(out);
+    u8 tmp[1200];
+    if (on + 3 >= sizeof tmp) { free(out); e.open = 1; return e; }
+    memcpy(tmp, "a@", 2); memcpy(tmp + 2, out, on); free(out);
+    return spec_email(5321, tmp, on + 2, tld_check);
+}
+
 static int hexval(int c) { return c >= '0' && c <= '9' ? c - '0' : c >= 'a' && c <= 'f' ? c - 'a' + 10 : c >= 'A' && c <= 'F' ? c - 'A' + 10 : -1; }
 
 static eav_result_t *cb_rc; static int cb_rc_val;
@@ -196,8 +223,8 @@ static int check(const char *kind, const u8 *s, size_t n, char **args, int nargs
     } else if (!strncmp(kind, "email", 5)) {
         int mode = atoi(kind + 5); int tld = nargs > 0 ? atoi(args[0]) : 0;
         char *buf = malloc(n + 1); memcpy(buf, s, n); buf[n] = 0;
-        eav_result_t *r = mode == 822 ? is_822_email(buf, n, tld) : mode == 5321 ? is_5321_email(buf, n, tld) : is_5322_email(buf, n, tld);
-        struct exp e = spec_email(mode, s, n, tld);
+        eav_result_t *r = mode == 822 ? is_822_email(buf, n, tld) : mode == 5321 ? is_5321_email(buf, n, tld) : mode == 5322 ? is_5322_email(buf, n, tld) : is_6531_email(buf, n, tld);
+        struct exp e = mode == 6531 ? spec_email_6531(s, n, tld) : spec_email(mode, s, n, tld);
         code = r->rc;
         int acc = r->rc >= 0;
         spec = e.accept ? (e.cls ? e.cls : 0) : -1;
@@ -239,7 +266,7 @@ static const char **alphabet(const char *kind, size_t *n)
     static const char *host[] = { "a", "1", "-", ".", "_", "A", "abcdefghijklmnopqrstuvwxyz0123456789abcdefghijklmnopqrstuvwxyz0123456789ab-xyzabcdefg", "$" };
     static const char *v4[] = { "0", "1", "25", "255", "256", ".", ":", "9", "a" };
     static const char *v6[] = { "0", "1", "a", "f", ":", "::", ".", "g", "1.2.3.4", "00001", "ffff", "1:2:3:4:5:6:7" };
-    static const char *em[] = { "a", ".", "@", "[", "]", ":", "1", "\"", "IPv6:", "ipv6:", "x", "-", "1.2.3.4", "::1", "com", "example", "test", "b@" };
+    static const char *em[] = { "a", ".", "@", "[", "]", ":", "1", "\"", "IPv6:", "ipv6:", "x", "-", "--", "xn--", "1.2.3.4", "::1", "com", "example", "test", "b@", "\xc3\xa9" };
     static const char *gen[] = { "a", "b", "c", "d", "e", "l", "m", "n", "o", "p", "s", "t", "x", ".", "-", "0", "E", "X" };
 #define RET(a) do { *n = sizeof(a) / sizeof(*(a)); return (a); } while (0)
     if (!strncmp(kind, "local", 5)) RET(loc);
